@@ -53,6 +53,17 @@ theorem format_facts :
     Facts.Store.sealAADNil = some true ∧ Facts.Store.openAADNil = some true := by
   decide
 
+/-- **A piece that does not open ends the plain-text stream with an error, in the current source** —
+    decided on the fact regenerated from the reader goroutine of `onDiskStore.Get`: directly after
+    `decrypted, err := c.gcm.Open(…)` comes `if err != nil { writer.CloseWithError(<that error>); return }`.
+    This is the statement the model's `openPrefix` renders as `Term.fail` (and not `Term.eof`) for the
+    first piece that does not open, on which `alteration_detected_partial`, `wrong_key_detected` and
+    `nonce_alteration_detected` rest: were the failure handed to the LZ4 reader as a plain end of
+    file, a damaged later block would read like a file cut on the block boundary before it
+    (`truncation_at_block_boundary`), i.e. possibly as a strict prefix without error. -/
+theorem open_failure_is_pipe_error : Facts.Store.openFailureFailsPipe = some true := by
+  decide
+
 /-- **`get_set` for the store as configured in the source** (`blockSize` and header from the
     regenerated facts). -/
 theorem get_set_gluon (s : Store K) (hc : s.cfg = gluonCfg) (hL : Laws s.P) (nonce : Bytes)
